@@ -101,6 +101,8 @@ type pathState struct {
 	opaqueInts int
 	knownDeadlockID   string
 	knownDeadlockCond *value
+	knownCrashID      string
+	knownCrashCond    *value
 	decided   map[*term]bool // conditions already implied by / added to the path condition
 }
 
